@@ -78,6 +78,7 @@ class PathAdd:
 
 IDX = "int(str(%s))" % ATTR
 PLAIN_INDEX = "(not (':' in str(%s)) and int_ok(str(%s)))" % (ATTR, ATTR)
+ONE_ELEM = "intmin == intmax and -len(data) <= intmin and intmin < len(data)"
 
 
 def WFY(node, parent, ref, seg):
@@ -107,13 +108,40 @@ class ByIndex:
         "implies({p} and isinstance(data, list) and not (-len(data) <= {i} and {i} < len(data)), len(out) == 0)".format(p=PLAIN_INDEX, i=IDX),
         "implies({p} and not isinstance(data, (list, set, CommentedSet)), len(out) == 0)".format(p=PLAIN_INDEX),
     ]
+    ensures += [
+        # a slice [m:n] of a sequence (other than the one-element form m == n in range): ONE result whose node is the list of the
+        # selected elements' coordinates -- the elements at max(m', 0) .. min(n', len) - 1 in order, where a negative bound
+        # counts from the end (m' = m + len) -- each with well-formed coordinates (element clauses below, proved where appended)
+        "implies(':' in str_stripped and isinstance(data, list), implies(not (%s), len(out) == 1 and out[0].node is sliced_elements "
+        "and out[0].parent is data and same(out[0].parentref, intmin)))" % ONE_ELEM,
+        "implies(':' in str_stripped and isinstance(data, list), implies(not (%s), "
+        "len(sliced_elements) == max(0, min(maxidx, datalen) - max(minidx, 0)) and datalen == len(data)))" % ONE_ELEM,
+        "implies(':' in str_stripped and isinstance(data, list), implies(not (%s) and intmin < 0, minidx == intmin + len(data)))" % ONE_ELEM,
+        "implies(':' in str_stripped and isinstance(data, list), implies(not (%s) and intmin >= 0, minidx == intmin))" % ONE_ELEM,
+        "implies(':' in str_stripped and isinstance(data, list), implies(not (%s) and intmax < 0, maxidx == intmax + len(data)))" % ONE_ELEM,
+        "implies(':' in str_stripped and isinstance(data, list), implies(not (%s) and intmax >= 0, maxidx == intmax))" % ONE_ELEM,
+        # the one-element form [m:m] with m in range: ONE result, a one-element list holding that element
+        "implies(':' in str_stripped and isinstance(data, list), implies(%s, len(out) == 1 and out[0].parent is data "
+        "and same(out[0].parentref, intmin) and len(out[0].node) == 1 and same(out[0].node[0], data[intmin])))" % ONE_ELEM,
+        # hash / set slices: every yield comes from the loop over the entries
+        "implies(':' in str_stripped and isinstance(data, dict) and not isinstance(data, list), looped('for key, val in list(data.items())'))",
+        "implies(':' in str_stripped and isinstance(data, (CommentedSet, set)) and not isinstance(data, (list, dict)), looped('for ele in list(data)'))",
+    ]
     loops = {
-        "for key, val in data.items()": {"body_ensures": WFY("val", "data", "key", ESC % "key") + [
+        "for key, val in list(data.items())": {"sole_yielder": True, "body_ensures": WFY("val", "data", "key", ESC % "key") + [
             "(len(yielded) == 1) == (min_match <= str(key) and str(key) <= max_match)"]},
-        "for ele in data": {"body_ensures": WFY("ele", "data", "ele", ESC % "ele") + [
+        "for ele in list(data)": {"sole_yielder": True, "body_ensures": WFY("ele", "data", "ele", ESC % "ele") + [
             "(len(yielded) == 1) == (min_match <= str(ele) and str(ele) <= max_match)"]},
+        # the k-th pass appends the element at index max(m', 0) + k
+        "for slice_index in range(max(minidx, 0), min(maxidx, datalen))": {
+            "invariant": ["len(sliced_elements) == iters"], "body_ensures": ["slice_index == max(minidx, 0) + iters"]},
     }
-    opts = dict(SEG_INV, yields="Union[NodeCoords, list]")
+    opts = dict(SEG_INV, yields="Union[NodeCoords, list]",
+                append_inv={"sliced_elements": [
+                    "same(elem.node, data[slice_index]) and elem.parent is data and same(elem.parentref, slice_index)",
+                    "extended_by(elem.ancestry, ancestry, (data, slice_index))",
+                    "path_is(elem.path, translated_path, '[{}]'.format(slice_index))",
+                    "same(elem.path_segment, pathseg)"]})
 
 
 
@@ -186,10 +214,10 @@ class BySearch:
     assume_fields = {"terms._inverted": "bool", "terms._method": "PathSearchMethods", "terms._attribute": "str", "terms._term": "str"}
     raises = ["YAMLPathException"]
     ensures = [
-        "implies(isinstance(data, dict) and not isinstance(data, list) and attr == '.', looped('for key, val in data.items()'))",
+        "implies(isinstance(data, dict) and not isinstance(data, list) and attr == '.', looped('for key, val in list(data.items())'))",
         "implies(isinstance(data, list) and traverse_lists, looped('for lstidx, ele in enumerate(data)'))",
         "implies(isinstance(data, list) and not traverse_lists, len(out) == 0)",
-        "implies(isinstance(data, (CommentedSet, set)) and not isinstance(data, (list, dict)), looped('for ele in data'))",
+        "implies(isinstance(data, (CommentedSet, set)) and not isinstance(data, (list, dict)), looped('for ele in list(data)'))",
         "implies(isinstance(data, dict) and not isinstance(data, list) and attr != '.' and attr in data,"
         " len(out) <= 1 and (len(out) == 1) == xor(%s, invert))" % (SM % "data[attr]"),
         "implies(isinstance(data, dict) and not isinstance(data, list) and attr != '.' and attr in data and len(out) == 1, %s)"
@@ -199,9 +227,9 @@ class BySearch:
         " and same(out[0].parentref, parentref) and out[0].path is translated_path and out[0].ancestry is ancestry)",
     ]
     loops = {
-        "for key, val in data.items()": {"sole_yielder": True, "body_ensures": WFY("val", "data", "key", ESC % "key") + [
+        "for key, val in list(data.items())": {"sole_yielder": True, "body_ensures": WFY("val", "data", "key", ESC % "key") + [
             "(len(yielded) == 1) == xor(%s, invert)" % (SM % "key")]},
-        "for ele in data": {"sole_yielder": True, "body_ensures": WFY("ele", "data", "ele", ESC % "ele") + [
+        "for ele in list(data)": {"sole_yielder": True, "body_ensures": WFY("ele", "data", "ele", ESC % "ele") + [
             "(len(yielded) == 1) == xor(%s, invert)" % (SM % "ele")]},
         "for lstidx, ele in enumerate(data)": {"sole_yielder": True, "body_ensures": WFY("ele", "data", "lstidx", "'[{}]'.format(lstidx)") + [
             "(len(yielded) == 1) == xor(matches, invert)",
@@ -221,10 +249,17 @@ class MatchAllUnfiltered:
     requires = PARSED
     inline = [YP + "escaped", YP + "unescaped"]
     raises = ["YAMLPathException"]
+    ensures = [
+        # ... and nothing else: on a container the only yields are those of the loop over its children
+        "implies(isinstance(data, dict), looped('for key, val in data.items()'))",
+        "implies(isinstance(data, list), looped('for idx, ele in enumerate(data)'))",
+        "implies(isinstance(data, (CommentedSet, set)), looped('for ele in data'))",
+        "implies(not isinstance(data, (dict, list, CommentedSet, set)), len(out) == 0)",
+    ]
     loops = {
-        "for key, val in data.items()": {"body_ensures": WF("val", "data", "key", ESC % "key")},
-        "for idx, ele in enumerate(data)": {"body_ensures": WF("ele", "data", "idx", "'[{}]'.format(idx)")},
-        "for ele in data": {"body_ensures": WF("ele", "data", "ele", ESC % "ele")},
+        "for key, val in data.items()": {"sole_yielder": True, "body_ensures": WF("val", "data", "key", ESC % "key")},
+        "for idx, ele in enumerate(data)": {"sole_yielder": True, "body_ensures": WF("ele", "data", "idx", "'[{}]'.format(idx)")},
+        "for ele in data": {"sole_yielder": True, "body_ensures": WF("ele", "data", "ele", ESC % "ele")},
     }
     opts = dict(SEG_INV, yields=NC)
 
